@@ -352,6 +352,16 @@ theorem aggregate_getElem (agg : Agg) (ps : List Series) (i : Nat) (hi : i < nRo
   rw [List.getElem?_map, rowsOf_getElem _ _ _ hi]
   rfl
 
+theorem weighted_getElem (ws : List Rat) (ps : List Series) (i : Nat) (hi : i < nRows ps) :
+    ∃ l, (firstLabels ps)[i]? = some l ∧ (weighted ws ps)[i]? = some (l, wsumRow ws (column ps i)) := by
+  have hl : i < (firstLabels ps).length := by rw [firstLabels_length]; exact hi
+  refine ⟨(firstLabels ps)[i], by simp [hl], ?_⟩
+  unfold weighted
+  rw [List.getElem?_zip_eq_some]
+  refine ⟨by simp [hl], ?_⟩
+  rw [List.getElem?_map, rowsOf_getElem _ _ _ hi]
+  rfl
+
 theorem aggregate_length (agg : Agg) (ps : List Series) : (aggregate agg ps).length = nRows ps := by
   unfold aggregate
   simp [firstLabels_length, rowsOf_length]
